@@ -8,7 +8,7 @@ echo "== demo with patch:"; PYTHONPATH="$wt" /venv/bin/python "$md/demo.py" >/tm
 if [ -n "$RUN_TESTS" ]; then echo "== tests with patch:"; /venv/bin/python -m pytest -q -p no:cacheprovider -x nptdms/test 2>&1 | tail -1; fi
 for id in "$@"; do
   echo "== check $id against mutant:"
-  ( cd /verif && NPTDMS_REPO="$wt" timeout 900 ./check "$id" >/tmp/chk_out.$$ 2>&1; echo "   exit=$?"; tail -4 /tmp/chk_out.$$; rm -f /tmp/chk_out.$$ )
+  ( cd "${VERIF_DIR:-/verif}" && NPTDMS_REPO="$wt" timeout 900 ./check "$id" >/tmp/chk_out.$$ 2>&1; echo "   exit=$?"; tail -4 /tmp/chk_out.$$; rm -f /tmp/chk_out.$$ )
 done
 git checkout -q -- .
 echo "== demo without patch:"; PYTHONPATH="$wt" /venv/bin/python "$md/demo.py" >/tmp/demo_out.$$ 2>&1; echo "   exit=$? (expect 0)"; rm -f /tmp/demo_out.$$
